@@ -84,7 +84,9 @@ static void error_fn(const char *message, void *arg, vnaerr_category_t category)
     snprintf(R.msg, sizeof(R.msg), "%s", message ? message : "(null)");
     for (char *p = R.msg; *p; ++p)
 	if (*p == ' ' || *p == '\n' || *p == '\t')
-	    *p = '_';
+	    *p = '_';    /* an error function may change errno (it calls stdio, ...): the library must set errno again after the call
+     * (differential evidence for the final "errno = new_errno" of _vnaerr_verror) */
+    errno = ERANGE;
 }
 static void rec_reset(void)
 {
